@@ -1,63 +1,320 @@
 import Tcs.Model.History
+import Tcs.Model.Sem.Fault
+import Tcs.Generated.ParamsImpl
 open Tcs
 
-def hexOfBytes (b : Bytes) : String :=
-  if b.size = 0 then "-" else String.ofList (b.toList.flatMap fun x => [Char.ofNat (hexDigit (x.toNat / 16)).toNat, Char.ofNat (hexDigit (x.toNat % 16)).toNat])
+/-! Line-protocol driver: re-executes, on the model, the operations the harness ran on the real
+    code, and prints the model's observation for each. Core-only imports: links natively. -/
 
-def bytesOfHex (s : String) : Option Bytes :=
-  if s = "-" then some ByteArray.empty else
-  let rec go : List UInt8 → ByteArray → Option ByteArray
-    | a :: b :: rest, acc => match hexVal a, hexVal b with
-      | some x, some y => go rest (acc.push (x * 16 + y).toUInt8)
-      | _, _ => none
-    | [], acc => some acc
-    | _, _ => none
-  go s.toUTF8.toList ByteArray.empty
+namespace Drv
+
+def hexChar (n : Nat) : Char := Char.ofNat (hexDigit n).toNat
+
+def hexOfBytes (b : ByteArray) : String := Id.run do
+  let mut s := ""
+  for x in b do
+    s := s.push (hexChar (x.toNat / 16))
+    s := s.push (hexChar (x.toNat % 16))
+  return s
+
+def bytesOfHexStr (s : String) : Option ByteArray := Id.run do
+  let u := s.toUTF8
+  if u.size % 2 ≠ 0 then return none
+  let mut acc := ByteArray.emptyWithCapacity (u.size / 2)
+  let mut i := 0
+  while i < u.size do
+    match hexVal u[i]!, hexVal u[i+1]! with
+    | some x, some y => acc := acc.push (x * 16 + y).toUInt8
+    | _, _ => return none
+    i := i + 2
+  return some acc
+
+/-- `-` | `hex:…` | `rle:<bytehex>*<n>,…` -/
+def parseBlob (s : String) : Option ByteArray :=
+  if s = "-" then some ByteArray.empty
+  else if s.startsWith "hex:" then bytesOfHexStr (s.drop 4).toString
+  else if s.startsWith "rle:" then Id.run do
+    let mut acc := ByteArray.empty
+    for part in (s.drop 4).toString.splitOn "," do
+      match part.splitOn "*" with
+      | [bx, n] =>
+        match bytesOfHexStr bx, n.toNat? with
+        | some b, some k =>
+          if b.size ≠ 1 then return none
+          acc := acc ++ ByteArray.mk (Array.replicate k b[0]!)
+        | _, _ => return none
+      | _ => return none
+    return some acc
+  else none
+
+def runsOf (b : ByteArray) : Array (UInt8 × Nat) := Id.run do
+  let mut runs : Array (UInt8 × Nat) := #[]
+  for x in b do
+    if runs.size > 0 && runs[runs.size - 1]!.1 == x then
+      runs := runs.modify (runs.size - 1) fun (y, n) => (y, n + 1)
+    else
+      if runs.size > 257 then return runs
+      runs := runs.push (x, 1)
+  return runs
+
+def showBlob (b : ByteArray) : String :=
+  if b.size = 0 then "-"
+  else if b.size > 64 then
+    let runs := runsOf b
+    if runs.size ≤ 256 then
+      "rle:" ++ ",".intercalate (runs.toList.map fun (x, n) => s!"{hexChar (x.toNat / 16)}{hexChar (x.toNat % 16)}*{n}")
+    else "hex:" ++ hexOfBytes b
+  else "hex:" ++ hexOfBytes b
+
+def fnv64 (b : ByteArray) : UInt64 := Id.run do
+  let mut h : UInt64 := 0xcbf29ce484222325
+  for x in b do
+    h := h ^^^ x.toUInt64
+    h := h * 0x100000001b3
+  return h
+
+def hex16 (h : UInt64) : String :=
+  String.ofList ((List.range 16).reverse.map fun i => hexChar ((h.toNat >>> (4 * i)) % 16))
+
+def showShort (b : ByteArray) : String :=
+  if b.size = 0 then "-"
+  else if b.size ≤ 32 then "hex:" ++ hexOfBytes b
+  else s!"fnv:{b.size}:{hex16 (fnv64 b)}"
 
 def uuidOf (s : String) : Option Uuid := parseUuid s.toUTF8.toList
 def showU (u : Uuid) : String := String.fromUTF8! ⟨(hyphenated u).toArray⟩
 def showUrg : Urgency → String | .none => "none" | .low => "low" | .high => "high"
-
-def showOut : Out → String
-  | .avOk v u => s!"avOk {showU v} {showUrg u}" | .avConflict l => s!"conflict {showU l}"
-  | .found v => s!"found {showU v.id} {showU v.parent} {hexOfBytes v.seg}" | .notFound => "notFound" | .gone => "gone"
-  | .asDone a => s!"asDone {a}" | .snap v d => s!"snap {showU v} {hexOfBytes d}" | .noSnap => "noSnap"
-  | .noSuchClient => "nsc" | .storageError => "ERR" | .reopened => "reopened"
+def reservedId : Uuid := ⟨340282366920938463463374607431768211455⟩
 
 inductive St | mem (m : Mem) | sql (s : Sql)
 
-def stepSt (S : Sys) (e : Ev) : St → Out × St
-  | .mem m => let (o, m') := (e.req S).run MemB .inPlace m; (o, .mem m')
-  | .sql s => let (o, s') := (e.req S).run SqlB .snapshotCommit s; (o, .sql s')
+structure Ctx where
+  st : St := .mem {}
+  sys : Sys := { cfg := ⟨14, 100⟩, params := Params.impl }
+  allow : Option (List Uuid) := none
+  followAv : Bool := false
+  followSnap : Bool := false
+
+def Ctx.http (c : Ctx) : HttpCfg := { cfg := c.sys.cfg, params := c.sys.params, allow := c.allow, ensure := c.sys.ensure }
+
+def runReq {α} (st : St) (p : ReqM α) : α × St :=
+  match st with
+  | .mem m => let (o, m') := p.run MemB .inPlace m; (o, .mem m')
+  | .sql s => let (o, s') := p.run SqlB .snapshotCommit s; (o, .sql s')
+
+def execCall (st : St) (cl : Uuid) (c : Call) : Except StorageErr c.Resp :=
+  match st with
+  | .mem m => (Mem.exec cl c m).1
+  | .sql s => (Sql.exec cl c s).1
+
+def showOut : Out → String
+  | .avOk v u => s!"ok {showU v} {showUrg u}" | .avConflict l => s!"conflict {showU l}"
+  | .found v => s!"found {showU v.id} {showU v.parent} {showBlob v.seg}" | .notFound => "notfound" | .gone => "gone"
+  | .asDone a => s!"ok acc={if a then 1 else 0}" | .snap v d => s!"some {showU v} {showBlob d}" | .noSnap => "none"
+  | .noSuchClient => "nsc" | .storageError => "err" | .reopened => "ok" | .created => "ok"
 
 def parseEv (ws : List String) : Option Ev :=
   match ws with
   | ["av", c, p, seg, nid, now] => do
-    let n ← if nid = "-" then some ⟨340282366920938463463374607431768211455⟩ else uuidOf nid
-    some (.av (← uuidOf c) (← uuidOf p) (← bytesOfHex seg) n (← now.toInt?))
+    let n ← if nid = "-" then some reservedId else uuidOf nid
+    some (.avLib (← uuidOf c) (← uuidOf p) (← parseBlob seg) n (← now.toInt?))
+  | ["hav", c, p, seg, nid, now] => do
+    let n ← if nid = "-" then some reservedId else uuidOf nid
+    some (.av (← uuidOf c) (← uuidOf p) (← parseBlob seg) n (← now.toInt?))
+  | ["create", c] => do some (.create (← uuidOf c))
   | ["gcv", c, p] => do some (.gcv (← uuidOf c) (← uuidOf p))
-  | ["as", c, v, d, now] => do some (.as (← uuidOf c) (← uuidOf v) (← bytesOfHex d) (← now.toInt?))
+  | ["as", c, v, d, now] => do some (.as (← uuidOf c) (← uuidOf v) (← parseBlob d) (← now.toInt?))
   | ["gs", c] => do some (.gs (← uuidOf c))
   | ["reopen"] => some .reopen
   | _ => none
 
-partial def loop (h : IO.FS.Stream) (S : Sys) (st : St) : IO Unit := do
+def dumpClient (st : St) (c : Uuid) (ids : List Uuid) : String := Id.run do
+  let mut s := ""
+  match execCall st c .getClient with
+  | .error _ => return "err"
+  | .ok none => s := "latest=none snap=- data=none"
+  | .ok (some cl) =>
+    s := s!"latest={showU cl.latest}"
+    match cl.snap with
+    | none => s := s ++ " snap=- data=none"
+    | some sn =>
+      s := s ++ s!" snap={showU sn.vid},{sn.ts},{sn.since}"
+      let d := match execCall st c (.getSnapshotData sn.vid) with
+        | .ok (some d) => showShort d
+        | .ok none => "none"
+        | .error _ => "err"
+      s := s ++ s!" data={d}"
+  for id in ids do
+    match execCall st c (.getVersion id) with
+    | .ok (some v) => s := s ++ s!" V:{showU id}={showU v.id}/{showU v.parent}/{showShort v.seg}"
+    | _ => pure ()
+  for id in ids do
+    match execCall st c (.getByParent id) with
+    | .ok (some v) => s := s ++ s!" P:{showU id}={showU v.id}"
+    | _ => pure ()
+  return s
+
+def insertSorted {α} (key : α → Nat) (x : α) : List α → List α
+  | [] => [x]
+  | y :: ys => if key x ≤ key y then x :: y :: ys else y :: insertSorted key x ys
+def sortBy {α} (key : α → Nat) (l : List α) : List α := l.foldl (fun acc x => insertSorted key x acc) []
+
+def rawDump (st : St) : String :=
+  match st with
+  | .mem _ => "n/a"
+  | .sql s =>
+    let o {α} (f : α → String) : Option α → String | none => "NULL" | some a => f a
+    let cs := (sortBy (·.clientId.val) s.clients).map fun r =>
+      s!"C:{showU r.clientId},{showU r.latest},{o showU r.snapVid},{o toString r.since},{o toString r.ts},{o showShort r.snap}"
+    let vs := (sortBy (·.versionId.val) s.versions).map fun r =>
+      s!"V:{showU r.versionId},{showU r.clientId},{showU r.parent},{showShort r.seg}"
+    if cs.isEmpty && vs.isEmpty then "empty" else " ".intercalate (cs ++ vs)
+
+def optS (f : String → String) : Option String → String | none => "-" | some s => f s
+def encS (s : String) : String := "hex:" ++ hexOfBytes s.toUTF8
+
+def showResp (r : Response) : String :=
+  s!"{r.status} vid={match r.vid with | some v => showU v | none => "-"} pvid={match r.pvid with | some v => showU v | none => "-"} sr={match r.snapreq with | some "urgency=low" => "low" | some "urgency=high" => "high" | some o => "other:" ++ hexOfBytes o.toUTF8 | none => "-"} ct={optS encS r.ctype} cc={optS encS r.cc} body={showBlob r.body}"
+
+/-- `http METHOD path k (name=hexvalue)*k n (blob)*n newid now` -/
+def parseHttp (ws : List String) : Option Request := do
+  match ws with
+  | "http" :: m :: path :: k :: rest =>
+    let k ← k.toNat?
+    if rest.length < k + 1 then none
+    let hs ← (rest.take k).mapM fun h =>
+      match h.splitOn "=" with
+      | [n, v] => do
+        let b ← if v = "-" then some ByteArray.empty else bytesOfHexStr v
+        some (n, b.toList)
+      | _ => none
+    let rest := rest.drop k
+    match rest with
+    | n :: rest =>
+      let n ← n.toNat?
+      if rest.length ≠ n + 2 then none
+      let chunks ← (rest.take n).mapM parseBlob
+      match rest.drop n with
+      | [nid, now] =>
+        let nid ← if nid = "-" then some reservedId else uuidOf nid
+        some { method := m, path := path, headers := hs, chunks := chunks, newId := nid, now := (← now.toInt?) }
+      | _ => none
+    | _ => none
+  | _ => none
+
+def snapVidOf (st : St) (c : Uuid) : Option Uuid :=
+  match execCall st c .getClient with
+  | .ok (some cl) => cl.snap.map (·.vid)
+  | _ => none
+
+def kvOf (ws : List String) (k : String) : Option String :=
+  (ws.filterMap fun w => match w.splitOn "=" with | [a, b] => if a = k then some b else none | _ => none).head?
+
+/-- apply a decision of the implementation that this check does not own (follow mode, DESIGN 3.6) -/
+def force (st : St) (c : Uuid) (body : TxnM Unit) : St :=
+  (runReq st (.txn c body fun _ => .done ())).2
+
+def forceSnap (st : St) (c v : Uuid) (d : ByteArray) (now : Int) : St :=
+  force st c (do call (.setSnapshot ⟨v, now, 0⟩ d); call .commit)
+def forceAv (st : St) (c v p : Uuid) (seg : ByteArray) : St :=
+  force st c (do call (.addVersion v p seg); call .commit)
+
+def implAcc (obs : String) : Option Bool :=
+  if (obs.splitOn "acc=1").length > 1 then some true else if (obs.splitOn "acc=0").length > 1 then some false else none
+
+def step (ctx : Ctx) (lhs : String) (implObs : String := "") : Ctx × String :=
+  let ws := lhs.splitOn " "
+  match ws with
+  | "run" :: _ =>
+    let st := if kvOf ws "backend" = some "sql" then St.sql {} else St.mem {}
+    let days := ((kvOf ws "days").bind String.toInt?).getD 14
+    let vers := ((kvOf ws "versions").bind String.toNat?).getD 100
+    let allow := match kvOf ws "allow" with
+      | none | some "none" => none
+      | some "" | some "empty" => some []
+      | some l => some ((l.splitOn ",").filterMap uuidOf)
+    let ensure := if kvOf ws "ensure" = some "pinned" then ensureClientPinned else ensureClientFixed
+    ({ ctx with st := st, sys := { cfg := ⟨days, vers⟩, params := Params.impl, ensure := ensure }, allow := allow }, "")
+  | "end" :: _ => (ctx, "")
+  | "dump" :: c :: rest =>
+    match uuidOf c with
+    | none => (ctx, "bad-op")
+    | some c =>
+      let ids := match rest with | [l] => (l.splitOn ",").filterMap uuidOf | _ => []
+      (ctx, dumpClient ctx.st c ids)
+  | ["rawdump"] => (ctx, rawDump ctx.st)
+  | "http" :: _ =>
+    match parseHttp ws with
+    | none => (ctx, "bad-op")
+    | some r =>
+      let isAs := (r.path.splitOn "/add-snapshot/").length > 1
+      let cid := (header r "x-client-id").bind fun v => (toStr v).bind parseUuid
+      let before := cid.bind (snapVidOf ctx.st)
+      let (resp, st') := runReq ctx.st (serve ctx.http r)
+      let after := cid.bind (snapVidOf st')
+      let macc := before ≠ after
+      let acc := if isAs then s!" acc={if macc then 1 else 0}" else ""
+      -- follow mode: take over the implementation's decision when it differs
+      let st'' :=
+        if isAs && ctx.followSnap then
+          match implAcc implObs, cid, (r.path.splitOn "/add-snapshot/")[1]? with
+          | some ia, some c, some seg =>
+            if ia = macc then st' else
+            if ia then
+              match pathId ((seg.splitOn "?").head!), assemble ctx.sys.params.maxSizeSnap r.chunks ByteArray.empty with
+              | some v, some body => forceSnap st' c v body r.now
+              | _, _ => st'
+            else ctx.st
+          | _, _, _ => st'
+        else if (r.path.splitOn "/add-version/").length > 1 && ctx.followAv then
+          let iok := implObs.startsWith "200 "
+          let mok := resp.status = 200
+          if iok = mok then st' else
+          if iok then
+            match cid, ((r.path.splitOn "/add-version/")[1]?).bind (fun seg => pathId ((seg.splitOn "?").head!)), assemble ctx.sys.params.maxSize r.chunks ByteArray.empty with
+            | some c, some p, some body =>
+              let st1 := force st' c ensureClientFixed
+              forceAv st1 c r.newId p body
+            | _, _, _ => st'
+          else ctx.st
+        else st'
+      ({ ctx with st := st'' }, showResp resp ++ acc)
+  | _ =>
+    match parseEv ws with
+    | none => (ctx, "bad-op")
+    | some e =>
+      let (o, st') := runReq ctx.st (e.req ctx.sys)
+      let st'' :=
+        match e, o with
+        | .as c v d now, .asDone macc =>
+          if ctx.followSnap then
+            match implAcc implObs with
+            | some ia => if ia = macc then st' else if ia then forceSnap st' c v d now else ctx.st
+            | none => st'
+          else st'
+        | .avLib c p seg newId _, .avOk .. =>
+          if ctx.followAv && implObs.startsWith "conflict" then ctx.st else st'
+        | .avLib c p seg newId _, .avConflict _ =>
+          if ctx.followAv && implObs.startsWith "ok " then forceAv st' c newId p seg else st'
+        | _, _ => st'
+      ({ ctx with st := st'' }, showOut o)
+
+partial def loop (h : IO.FS.Stream) (out : IO.FS.Stream) (ctx : Ctx) : IO Unit := do
   let line ← h.getLine
   if line.isEmpty then return ()
   let l := line.trimAscii.toString
-  let lhs := (l.splitOn " => ").head!
-  match lhs.splitOn " " with
-  | ["backend", "mem"] => IO.println l; loop h S (.mem {})
-  | ["backend", "sql"] => IO.println l; loop h S (.sql {})
-  | ["cfg", d, v] => IO.println l; loop h { S with cfg := ⟨d.toInt!, v.toNat!⟩ } st
-  | ws =>
-    match parseEv ws with
-    | none => IO.println s!"{lhs} => bad-op"; loop h S st
-    | some e =>
-      let (o, st') := stepSt S e st
-      IO.println s!"{lhs} => {showOut o}"
-      loop h S st'
+  if l.startsWith "#" || l.isEmpty then
+    out.putStrLn l
+    loop h out ctx
+  else
+    let parts := l.splitOn " => "
+    let lhs := parts.head!
+    let (ctx', obs) := step ctx lhs (parts.getD 1 "")
+    if obs.isEmpty then out.putStrLn lhs else out.putStrLn s!"{lhs} => {obs}"
+    loop h out ctx'
+
+end Drv
 
 def main (args : List String) : IO Unit := do
-  let ensure := if args.contains "pinned" then ensureClientPinned else ensureClientFixed
-  loop (← IO.getStdin) { cfg := ⟨14, 100⟩, ensure := ensure } (.mem {})
+  let out ← IO.getStdout
+  Drv.loop (← IO.getStdin) out { followAv := args.contains "follow-av", followSnap := args.contains "follow-snap" }
